@@ -196,7 +196,19 @@ impl<BE: DecryptWriteBackend> Indexer<BE> {
 #[allow(missing_docs, unused_imports, dead_code, clippy::all, clippy::pedantic, clippy::nursery)]
 pub mod verif_hooks {
     use super::*;
+    use crate::repository::{Open, Repository};
 
-    /// `constants::MAX_COUNT`: the number of indexed blobs at which the indexer saves an index file on its own.
+    /// `constants::MAX_COUNT`: number of blobs after which `add_with` saves the index file
     pub const MAX_COUNT: usize = constants::MAX_COUNT;
+    /// `constants::MAX_AGE`: age after which `add_with` saves the index file
+    pub const MAX_AGE: Duration = constants::MAX_AGE;
+
+    /// One `Indexer` as a backup run uses it: `add` for every pack in order, then `finalize`.
+    pub fn run_indexer<S: Open>(repo: &Repository<S>, packs: Vec<IndexPack>) -> RusticResult<()> {
+        let mut indexer = Indexer::new(repo.dbe().clone());
+        for pack in packs {
+            indexer.add(pack)?;
+        }
+        indexer.finalize()
+    }
 }
